@@ -51,6 +51,10 @@ SHAPES = {
     # several clients per worker: client ids and worker ids differ (clients 0,1 on worker 0, client 2 on worker 1)
     "named_2clients_on_1worker": (lambda: [track.Parallel([T("A", 2, completes_parent=True), T("B", iterations=None)]), T("z")], 2),
     "any_3clients_2workers": (lambda: [track.Parallel([T("C", 2, any_completes_parent=True), T("D", iterations=None, any_completes_parent=True)])], 2),
+    # an element with completed-by 'any' that uses fewer clients than the widest element: a worker without any task in it reaches
+    # the join point at once, which must not count as "a task finished"
+    "any_idle_worker": (lambda: [T("x", 2), track.Parallel([T("C", any_completes_parent=True)])], 2),
+    "any_idle_worker_endless": (lambda: [T("x", 3), track.Parallel([T("C", any_completes_parent=True), T("D", iterations=None, any_completes_parent=True)])], 3),
 }
 
 
@@ -317,19 +321,21 @@ def _inv(s):
     if d < 0:
         return None
     waiting = {wid for wid, (ph, _, _) in phases.items() if ph == "wait"}
+    # with 'any' the element ends when the first TASK finishes: only workers that run a task of this element can report that
+    busy = {wid for wid, (ph, w, _) in phases.items() if rows_of_element(w, d)}
     comp_workers = {D.clients_per_worker[c] for c in jp.clients_executing_completing_task} if kind == "named" else set()
     if kind is None and D.complete_current_task_sent:
         return "4: CompleteCurrentTask sent in an element without completed-by"
     if D.complete_current_task_sent:
         if kind == "named" and not comp_workers <= waiting:
             return "3: CompleteCurrentTask sent before the completing clients arrived"
-        if kind == "any" and not waiting:
-            return "3: CompleteCurrentTask sent before anybody arrived"
+        if kind == "any" and not (waiting & busy):
+            return "3: CompleteCurrentTask sent in a completed-by 'any' element before any of its tasks finished (only workers without a task in it arrived)"
     else:
         if kind == "named" and comp_workers <= waiting and waiting:
             return "3: completing clients arrived but CompleteCurrentTask not sent"
-        if kind == "any" and waiting:
-            return "3: somebody arrived but CompleteCurrentTask not sent"
+        if kind == "any" and (waiting & busy):
+            return "3: a worker that ran a task of the element arrived but CompleteCurrentTask not sent"
     for wid, (ph, w, behind) in phases.items():
         if ph in ("inflight", "armed", "run"):
             er = rows_of_element(w, d)
